@@ -32,7 +32,7 @@ def main():
         data = json.loads(Path(a.replay).read_text())
         rc = mod.replay(data) if hasattr(mod, "replay") else generic_replay(mod, data)
         sys.exit(rc)
-    rep = Report(pid, tier, LEVELS.get(pid, "proof"))
+    rep = Report(pid, tier, LEVELS.get(pid, "exploration"))
     from harness.pool import Pool
 
     pool = Pool()
